@@ -61,6 +61,31 @@ def Msg.name : Msg → String
   | .notIterable => "notIterable" | .loopBody => "loopBody" | .duplicateFunction => "duplicateFunction"
   | .mainParams => "mainParams" | .mainReturn => "mainReturn" | .mainMissing => "mainMissing"
 
+/-! ## Equality test (used by examples and the driver; `DecidableEq` cannot be derived for
+the nested type) -/
+
+mutual
+def Ty.beq : Ty → Ty → Bool
+  | .unknown, .unknown | .never, .never | .any, .any | .null, .null | .int, .int | .float, .float
+  | .bool, .bool | .str, .str | .range, .range | .anyobj, .anyobj => true
+  | .list a, .list b => a.beq b
+  | .opt a, .opt b => a.beq b
+  | .obj a, .obj b => beqFields a b
+  | .fn pa ra, .fn pb rb => beqFields pa pb && ra.beq rb
+  | .fnvar pa sa ra, .fnvar pb sb rb => beqTys pa pb && sa.beq sb && ra.beq rb
+  | _, _ => false
+def beqFields : List (String × Ty) → List (String × Ty) → Bool
+  | [], [] => true
+  | (n, a) :: r, (m, b) :: s => n == m && a.beq b && beqFields r s
+  | _, _ => false
+def beqTys : List Ty → List Ty → Bool
+  | [], [] => true
+  | a :: r, b :: s => a.beq b && beqTys r s
+  | _, _ => false
+end
+
+instance : BEq Ty := ⟨Ty.beq⟩
+
 /-! ## `CheckAny` -/
 
 mutual
